@@ -160,7 +160,9 @@ class Interp:
                     e_ = info_["wref"]()
                     if e_ is not None:
                         cur_mw = e_._max_workers
-                        info_["base"] = cur_mw if not self.inflight_all else max(info_["base"], cur_mw)
+                        # with other calls still in flight the value this call asked for may have been in
+                        # effect (and already be replaced by the next call's) when the return is observed
+                        info_["base"] = cur_mw if not self.inflight_all else max(info_["base"], cur_mw, req or 0)
         k = rt.RT.kernel
         known = None
         for info in self.obs.executors.values():
@@ -554,6 +556,10 @@ class Interp:
                 raise sk.SimKilled()      # the process is gone: nothing it "observes" from here on is real
             ev = self.obs.event(thread=th, i=i, op=name, phase="call", o=o)
             cur.api = (name, o.get("ex"), o.get("f"), o.get("context"))
+            if o.get("arm"):                      # knob line_at {armed: True} counts lines of this call only
+                self.run.line_at_armed = cur.ident
+            elif getattr(self.run, "line_at_armed", None) == cur.ident:
+                self.run.line_at_armed = None
             try:
                 r = getattr(self, "op_" + name)(th, o)
             except sk.SimKilled:
